@@ -119,12 +119,12 @@ def any_worker(arg):
 
 def check(tier, seed):
     t = pc.trees("plain", "san")
-    n = 400 if tier == "quick" else 2400
-    nsan = 40 if tier == "quick" else 240
+    n = 400 if tier == "quick" else 1600
+    nsan = 40 if tier == "quick" else 160
     res = Result("exploration")
     res.rule = RULE
     base = seed * 1000000 + (0 if tier == "quick" else 50000) + 300000
-    ncomp = 8 if tier == "quick" else 96
+    ncomp = 8 if tier == "quick" else 32
     jobs = [("compiled", base + 900000 + i, t["plain"]) for i in range(ncomp)]
     jobs += [("interp", base + i, t["plain"]) for i in range(n)] + [("interp", base + n + i, t["san"]) for i in range(nsan)]
     recs = runner.pmap(any_worker, jobs, nproc=8)
